@@ -92,3 +92,39 @@ def c02_tables() -> core.Result:
     un = [f"{tt}: {lit.get(tt)!r} != {sp!r}" for sp, tt in SG.UNARY_OPS.items() if lit.get(tt) != sp]
     res.obs.append(_ob("C02/tb/unary-operator-spellings", not un, "; ".join(un) or "6 unary operators carry the C spellings", "c_lexer._fixed_tokens"))
     return res
+
+
+def error_channel_obligations(prefix: str) -> core.Result:
+    """The single error channel is never intercepted: no try statement of the parser, the lexer or the AST transforms
+    catches ParseError (or a superclass, or everything).  A swallowed ParseError turns a located error into a silently
+    different parse or into an error at another place (C06 message contract, C11 error locations, C18 rejection)."""
+    import ast as _ast
+
+    res = core.Result()
+    for rel in ("pycparser/c_parser.py", "pycparser/c_lexer.py", "pycparser/ast_transforms.py", "pycparser/__init__.py"):
+        src = core.Source.get(rel)
+        bad = []
+        for n in _ast.walk(src.tree):
+            if isinstance(n, _ast.Try):
+                for h in n.handlers:
+                    names = []
+                    t = h.type
+                    if t is None:
+                        names = ["<bare except>"]
+                    else:
+                        for e in (t.elts if isinstance(t, _ast.Tuple) else [t]):
+                            names.append(e.id if isinstance(e, _ast.Name) else getattr(e, "attr", "?"))
+                    if any(x in ("ParseError", "Exception", "BaseException", "<bare except>") for x in names):
+                        bad.append(f"{rel}:{h.lineno} except {', '.join(names)}")
+                if n.finalbody and any(isinstance(x, (_ast.Return, _ast.Break, _ast.Continue)) for f in n.finalbody for x in _ast.walk(f)):
+                    bad.append(f"{rel}:{n.lineno} finally block that can swallow an exception")
+        rep = ("from pycparser import c_parser\nbad=[]\n"
+               "for src in ['int x = (int @) 1;', 'int x = sizeof(int `);', 'int f(void){ return (char @)0; }']:\n"
+               "    off = max(src.find('@'), src.find('`'))\n"
+               "    try:\n        c_parser.CParser().parse(src, 'w.c'); bad.append((src, 'accepted'))\n"
+               "    except c_parser.ParseError as e:\n"
+               "        if not str(e).startswith('w.c:1:%d:' % (off + 1)): bad.append((src, str(e)))\n"
+               "print(bad)\nprint('REPRODUCED' if bad else 'NOT-REPRODUCED')\n")
+        res.obs.append(_ob(f"{prefix}/tb/error-channel-not-intercepted/{rel.split('/')[-1]}", not bad,
+                           "; ".join(bad) or "no handler catches ParseError / Exception / everything", rel, rep if bad else None))
+    return res
